@@ -83,6 +83,7 @@ func runC14(c *Ctx) {
 	c.rule("alias-tags", "the alias mangler is constructed with the documented tag list: env (dials, dialsenv), flag (dials, dialsflag), pflag (dials, dialspflag, dialspflagshort), ez file decoder (dials)", 4)
 	c.rule("alias-all-tags", "the loops of AliasMangler.Mangle (collecting the <tag>alias values, rewriting the copied field's tags) end only by exhaustion or an error return", 2)
 	c.rule("alias-read-unconditional", "the collecting loop of AliasMangler.Mangle looks up <tag>alias on every iteration, independently of whether the primary tag is spelled out on the field", 1)
+	c.rule("copy-drops-unaliased", "the alias copy of a field keeps, of the mangler's tag list, only the tags it was given an alias for: every other listed tag is deleted from the copy", 1)
 	c.rule("ez-wrap-always", "the decoder the ez entry point hands to its file source is, on every feasible path, the transforming decoder whose chain starts with the unconditional alias mangler", 1)
 	c.rule("either-or", "AliasMangler.Unmangle with two copies returns an error naming the field exactly when both are set; every value it returns from the scan was tested set (or, after the scan, is an unset copy)", 3)
 	c.rule("nil-test-total", "every 'is set' test in AliasMangler.Unmangle goes through one predicate, and that predicate never calls reflect.Value.IsNil on a kind that is not nil-able", 2)
@@ -176,6 +177,75 @@ func runC14(c *Ctx) {
 	}
 	if nr == 0 {
 		c.bad("alias-read-unconditional", relName(mg), mg.Pos(), "no lookup of <tag>+\"alias\" found in a loop of AliasMangler.Mangle")
+	}
+
+	// ---- copy-drops-unaliased: every tag of the mangler's list that got no alias is deleted from the copy (D31) ----
+	{
+		nd := 0
+		for _, i := range allInstrs(mg) {
+			ci, ok := i.(*ssa.Call)
+			if !ok || !strings.HasSuffix(calleeFullName(ci), "structtag.Tags).Delete") || !inLoop(ci) {
+				continue
+			}
+			els, ok := sliceElems(ci.Call.Args[1], 0)
+			if !ok || len(els) != 1 {
+				continue
+			}
+			// the key is the plain range element of the mangler's tag list (not tag + "alias")
+			if _, isAdd := els[0].V.(*ssa.BinOp); isAdd {
+				continue
+			}
+			base, _, isElem := elemOf(els[0].V)
+			if !isElem {
+				continue
+			}
+			if _, isFld := loadOfTypeField(base, "transform.AliasMangler", "tags"); !isFld {
+				continue
+			}
+			var h *ssa.BasicBlock
+			for _, lh := range loopHeaders(mg) {
+				if inLoopBody(lh, ci.Block()) && (h == nil || inLoopBody(h, lh)) {
+					h = lh
+				}
+			}
+			if h == nil {
+				continue
+			}
+			var entry *ssa.BasicBlock
+			for _, sc := range h.Succs {
+				if inLoopBody(h, sc) {
+					entry = sc
+				}
+			}
+			// ... and it is deleted from the copy: the Tags object the alias names are Set on
+			onCopy := false
+			for _, j := range allInstrs(mg) {
+				if sc, ok := j.(*ssa.Call); ok && strings.HasSuffix(calleeFullName(sc), "structtag.Tags).Set") && sc.Call.Args[0] == ci.Call.Args[0] {
+					onCopy = true
+				}
+			}
+			if !onCopy {
+				continue
+			}
+			nd++
+			pb := &predBuilder{name: func(v ssa.Value) string {
+				if ex, ok := v.(*ssa.Extract); ok && ex.Index == 1 {
+					if lk, ok := ex.Tuple.(*ssa.Lookup); ok && lk.CommaOk && sameValue(lk.Index, els[0].V) {
+						return "aliased"
+					}
+				}
+				return ""
+			}}
+			g := pb.pathCondAvoid(entry, ci.Block(), map[*ssa.BasicBlock]bool{h: true})
+			fb, fi := map[string]bool{}, map[string]bool{}
+			atomsOf(g, fb, fi)
+			_, counter := forAll(g, nil, func(e env, fv bool) bool { return fv == !e.B["aliased"] })
+			c.check(fb["aliased"] && counter == "", "copy-drops-unaliased", relName(mg), ci.Pos(), "a tag of the mangler's list is deleted from the alias copy exactly when no alias was given for it",
+				"the deletion of un-aliased tags from the alias copy is not exactly 'no alias was given for this tag' ("+counter+")")
+		}
+		if nd == 0 {
+			c.bad("copy-drops-unaliased", relName(mg), mg.Pos(), "the alias copy keeps every tag of the mangler's list it has no alias for: both copies answer to the same primary name (a field with dialsenv + dialsalias fails with 'both alias and original set' when only the primary variable is set; a pflag shorthand is registered twice)")
+		}
 	}
 
 	// ---- alias-recurses -------------------------------------------------------------
